@@ -53,6 +53,11 @@ def run_one(m):
         r = subprocess.run([os.path.join(VERIF, 'check'), m['property'], '--root', d, '--tier', 'quick'],
                            capture_output=True, text=True, env=env)
         out = r.stdout + r.stderr
+        if m.get('expect') == 'pass':
+            # behaviour-preserving variant: the check must stay silent
+            if r.returncode == 0:
+                return m, 'killed', 'silent on a behaviour-preserving variant, as required'
+            return m, 'FALSE-ALARM', out[-700:]
         if r.returncode == 2:
             if 'compile failed' in out:
                 return m, 'stale', 'mutant does not compile'
